@@ -36,7 +36,7 @@ def seeded_table():
             m = json.load(open(os.path.join(d, 'meta.json')))
         except Exception:
             continue
-        lines = m.get('check_result_first_run', [])
+        lines = m.get('check_result_latest') or m.get('check_result_first_run', [])
         verdict = 'VIOLATION' if any(l.startswith('VIOLATION') for l in lines) else ('INCONCLUSIVE' if any(l.startswith('INCONCLUSIVE') for l in lines) else 'OK')
         by = []
         for l in lines:
